@@ -3,6 +3,7 @@ package keeper
 import (
 	"context"
 	"errors"
+	"strconv"
 
 	"cosmossdk.io/collections"
 	sdkerrors "github.com/cosmos/cosmos-sdk/types/errors"
@@ -18,10 +19,23 @@ func (q queryServer) ListBid(ctx context.Context, req *types.QueryAllBidRequest)
 		return nil, status.Error(codes.InvalidArgument, "invalid request")
 	}
 
-	bids, pageRes, err := query.CollectionPaginate(
+	// Request fields left at their zero value do not filter.
+	bids, pageRes, err := query.CollectionFilteredPaginate(
 		ctx,
 		q.k.Bid,
 		req.Pagination,
+		func(_ collections.Pair[uint64, uint64], bid types.Bid) (bool, error) {
+			if req.AuctionId != 0 && bid.AuctionId != req.AuctionId {
+				return false, nil
+			}
+			if req.Bidder != "" && bid.Bidder != req.Bidder {
+				return false, nil
+			}
+			if req.IsMatched != "" && strconv.FormatBool(bid.IsMatched) != req.IsMatched {
+				return false, nil
+			}
+			return true, nil
+		},
 		func(_ collections.Pair[uint64, uint64], value types.Bid) (types.Bid, error) {
 			return value, nil
 		},
